@@ -257,3 +257,57 @@ Theorem C19_ignore_value_is_source : forall (E : env) (s : st) (buf : bytes) (fu
 Proof. exact (@IgnoreSrc.ignore_value_is_translated_source). Qed.
 Print Assumptions C19_ignore_value_is_source.
 
+From SJ Require Import Base.Bytes Base.Utf8 Base.FloatB Gen.Tables Model.Read Model.Str Model.Num Model.NumF32 Model.Value Model.De
+  Model.Ignore Model.Ty Model.DeTyped Model.Sval Model.Ser Model.RawM Model.RawDe Spec.Syntax Spec.Denote.
+From SJ Require Import Proofs.GrammarStr Proofs.GrammarNum Proofs.TypedTotal Proofs.RawDe Proofs.RawAny
+  Proofs.GrammarValueBase Proofs.RawDeBase Proofs.RawDeValue Proofs.RawDeF32 Proofs.RawDeLeaves.
+From SJ Require Proofs.GrammarValueSound Proofs.GrammarValueComplete Proofs.GrammarFinal Proofs.StrSource Proofs.RawToValue
+  Proofs.SerBase Proofs.SerMain Proofs.Utf8Lemmas Spec.Layout.
+Require Import Lia ZifyBool ZifyNat ZifyN.
+From SJ Require Import Proofs.RawDeProps.
+Theorem C19_de_typed_consumes : forall cf f t s d s1 c x,
+  de_typed f (mkEnv RStr TEof cf) t s = TOk (d, s1) -> skipws (rest s) = render c ++ x -> wfb c = true -> val_follow x -> Stops t c x (rest s1).
+Proof. exact (@RawDeProps.de_typed_consumes). Qed.
+Print Assumptions C19_de_typed_consumes.
+
+Theorem C19_raw_de_vs_from_str : forall cf t c, wfb c = true ->
+  raw_deserialize cf t (render c) = raw_from_str cf t (render c)
+  \/ (head128 t = true /\ ~ int_only c /\
+      exists d i, raw_deserialize cf t (render c) = TOk d /\ raw_from_str cf t (render c) = TErr TrailingCharacters i).
+Proof. exact (@RawDeProps.raw_de_vs_from_str). Qed.
+Print Assumptions C19_raw_de_vs_from_str.
+
+Theorem C19_raw_de_is_from_str_partial : forall cf t c, wfb c = true -> head128 t = false \/ int_only c ->
+  raw_deserialize cf t (render c) = raw_from_str cf t (render c).
+Proof. exact (@RawDeProps.raw_de_is_from_str_partial). Qed.
+Print Assumptions C19_raw_de_is_from_str_partial.
+
+Theorem C19_raw_de_value_is_reparse : forall cf j d, captured j -> utf8_valid j = true ->
+  (raw_deserialize cf TValue j = TOk d <-> exists v, d = DValue (Driver.show_value v) /\ Denotes (raw_cfg cf) j v).
+Proof. exact (@RawDeProps.raw_de_value_is_reparse). Qed.
+Print Assumptions C19_raw_de_value_is_reparse.
+
+Theorem C19_raw_into_deserializer_is_from_str : forall cf t c, wfb c = true -> head128 t = false \/ int_only c ->
+  raw_deserialize_into cf t (render c) = raw_from_str cf t (render c).
+Proof. exact (@RawDeProps.raw_into_deserializer_is_from_str). Qed.
+Print Assumptions C19_raw_into_deserializer_is_from_str.
+
+Theorem C19_to_raw_value_reparses : forall cf fmt32 fmt64 v j,
+  Layout.ryu_json fmt32 fmt64 -> Layout.wfs v = true ->
+  RawM.to_raw_value cf fmt32 fmt64 v = Ok j ->
+  from_string cf j = TOk j /\ captured j /\ utf8_valid j = true.
+Proof. exact (@RawDeProps.to_raw_value_reparses). Qed.
+Print Assumptions C19_to_raw_value_reparses.
+
+Theorem C19_to_raw_value_then_deserialize : forall cf fmt32 fmt64 v j t,
+  Layout.ryu_json fmt32 fmt64 -> Layout.wfs v = true -> RawM.to_raw_value cf fmt32 fmt64 v = Ok j -> head128 t = false ->
+  raw_deserialize cf t j = raw_from_str cf t j.
+Proof. exact (@RawDeProps.to_raw_value_then_deserialize). Qed.
+Print Assumptions C19_to_raw_value_then_deserialize.
+
+
+Example C19_raw_de_128_differs :
+  raw_deserialize RawDeProps.cfg0 (TInt Ty.I128) [49; 46; 53] = TOk (DInt 1)
+  /\ raw_from_str RawDeProps.cfg0 (TInt Ty.I128) [49; 46; 53] = TErr TrailingCharacters 2
+  /\ from_string RawDeProps.cfg0 [49; 46; 53] = TOk [49; 46; 53].
+Proof. exact RawDeProps.raw_de_128_differs. Qed.
